@@ -12,7 +12,7 @@ from . import boot, reader
 from .genrun import WallTimeout, _alarm
 from .model import GenAudit, Template, peq
 from .seams import DrawDiverges, World
-from .simrng import BudgetExceeded, InjectedInterrupt, InjectedRngError, Scheduler, SimAbort, SimRng
+from .simrng import BudgetExceeded, InjectedInterrupt, InjectedRngError, InjectedValueError, Scheduler, SimAbort, SimRng
 
 
 def system_model(ast_sys, system_molweight=None):
@@ -304,8 +304,8 @@ def run_system(text, ops_seed, sched_kwargs, n_generators=1, faults=None, props=
                         t["done"] = True
                         t["dead"] = "thrown"
                         handled = True
-                    elif kind in ("rng_raise", "rng_interrupt"):
-                        sched.faults[sched.calls + f.get("offset", 0)] = "raise" if kind == "rng_raise" else "interrupt"
+                    elif kind in ("rng_raise", "rng_interrupt", "rng_value"):
+                        sched.faults[sched.calls + f.get("offset", 0)] = {"rng_raise": "raise", "rng_interrupt": "interrupt", "rng_value": "value"}[kind]
                     elif kind == "embed_fail":
                         # the embedding of the (offset mod 4)-th residue built inside this resumption yields no conformer
                         world.embed_fault_at = world.embed_calls + f.get("offset", 0) % 4
@@ -351,10 +351,10 @@ def run_system(text, ops_seed, sched_kwargs, n_generators=1, faults=None, props=
                                       "msg": f"iteration stopped at accumulated mass {t['mass']} < system mass {M_sys} after {t['yields']} molecules",
                                       "features": []})
                     continue
-                except (InjectedRngError, InjectedInterrupt) as exc:
+                except (InjectedRngError, InjectedInterrupt, InjectedValueError) as exc:
                     t["done"] = True
                     t["dead"] = "rng_fault"
-                    fk = "rng_interrupt" if isinstance(exc, InjectedInterrupt) else "rng_raise"
+                    fk = "rng_interrupt" if isinstance(exc, InjectedInterrupt) else ("rng_value" if isinstance(exc, InjectedValueError) else "rng_raise")
                     stats["fault:" + fk] = stats.get("fault:" + fk, 0) + 1
                     world.event({"k": "op", "op": "raised", "g": gi, "exc": type(exc).__name__})
                     try:
